@@ -16,6 +16,7 @@ let handlers : (string, (string * string) list -> string) Hashtbl.t = Hashtbl.cr
 let register k f = Hashtbl.replace handlers k f
 
 let () = Drv_mode.install register get getn geti getb
+let () = Drv_wire.install register get getn geti getb
 
 let () =
   (try while true do
